@@ -137,6 +137,8 @@ class Exec(ExprMixin, SpecMixin, Engine):
         if name in ("KeyError", "ValueError", "TypeError", "IndexError",
                     "AssertionError", "BTreesConflictError"):
             return [(s, SV("excobj", None, name))]
+        if name in CLASS_IDS and name not in self.contracts:
+            return self.instantiate(s, SV("cls", None, name), args)
         q = name if name in self.contracts or name in self.sources else None
         if q:
             return self.call_qual(s, q, None, args, {})
@@ -275,9 +277,11 @@ class Exec(ExprMixin, SpecMixin, Engine):
         if name in ("_to_key", "_to_value"):
             return self.convert(s, name, args[0])
         if name == "readCurrent":
-            s.ghost["RC"] = z3.Store(s.ghost["RC"], args[0].z, True) \
-                if "RC" in s.ghost else None
+            s.ghost["RC"] = z3.Store(s.ghost["RC"], args[0].z, True)
             return [(s, NONE)]
+        hv = (self.cur.ghost.get("havoc_calls") or {}) if self.cur is not None else {}
+        if name in hv and self.inline_depth == 0:
+            return self.havoc_call(s, obj, name, hv[name])
         if obj.x is not None:
             classes = [obj.x]
         else:
@@ -301,6 +305,47 @@ class Exec(ExprMixin, SpecMixin, Engine):
             res.extend(self.call_qual(s2, q, SV("ref", obj.z, c), args, kw))
         if not res:
             raise Unsupported("no feasible receiver class for " + name)
+        return res
+
+    def havoc_call(self, s, obj, name, spec):
+        """Typestate view of a call (DESIGN 4.3 T-RC / P:RC): the callee may
+        change any heap cell and raise anything; only the ghost read-current
+        log is tracked: it never shrinks, and stays equal when the callee is
+        declared rc-neutral (a claim its own contract proves)."""
+        for cl_name, txt in (self.cur.ghost.get("at_call", {}).get(name, {})).items():
+            ctx = SpecCtx(self.entry_stack[-1], s)
+            self.oblige(s, "%s:at-call[%s]:%s" % (self.cur.name, name, cl_name),
+                        self.spec(txt, ctx, env=dict(self.entry_stack[-1].env), state=s))
+        res = []
+        for ret in spec["returns"]:
+            s2 = s.copy()
+            for fld in list(s2.heap):
+                if fld in ("$cls", "_p_oid", "_p_jar", "_p_serial"):
+                    continue
+                s2.heap[fld] = fresh("hvall_" + fld.strip("$"), s2.heap[fld].sort())
+            k = fresh("nalloc", INT)
+            s2.assume(k >= 0)
+            s2.alloc = s2.alloc + k
+            if not spec.get("rc_neutral", False):
+                newrc = fresh("RC", z3.ArraySort(INT, BOOL))
+                o = z3.Int("o!rc")
+                s2.assume(z3.ForAll([o], z3.Implies(z3.Select(s2.ghost["RC"], o), z3.Select(newrc, o))))
+                s2.ghost["RC"] = newrc
+            r = self.mk_value(s2, ret, "hret") if ret != "none" else NONE
+            s2.trace.append("havoc %s" % name)
+            res.append((s2, r))
+        if spec.get("raises", True):
+            s3 = s.copy()
+            for fld in list(s3.heap):
+                if fld in ("$cls", "_p_oid", "_p_jar", "_p_serial"):
+                    continue
+                s3.heap[fld] = fresh("hvall_" + fld.strip("$"), s3.heap[fld].sort())
+            if not spec.get("rc_neutral", False):
+                newrc = fresh("RC", z3.ArraySort(INT, BOOL))
+                o = z3.Int("o!rc")
+                s3.assume(z3.ForAll([o], z3.Implies(z3.Select(s3.ghost["RC"], o), z3.Select(newrc, o))))
+                s3.ghost["RC"] = newrc
+            res.append((s3, exc("*")))
         return res
 
     def convert(self, s, name, x):
@@ -442,6 +487,9 @@ class Exec(ExprMixin, SpecMixin, Engine):
         ret_alts = con.returns if isinstance(con.returns, list) else [con.returns]
         outcomes = [("normal", con.ensures, ra) for ra in ret_alts] + \
             [(e, cl, None) for e, cl in con.raises.items()]
+        if self.mode == "faulty" and "CompareError" not in con.raises and \
+                not con.ghost.get("no_compare", False):
+            outcomes.append(("CompareError", con.ghost.get("on_compare_error", {}), None))
         for kind, clauses, ret_spec in outcomes:
             post = s.copy()
             post.env = dict(env)
